@@ -115,7 +115,16 @@ def gen_case(rng, big=False):
     prog = lp.gen_prog(rng, len(body), maxcalls=12)
     if big:
         prog = prog[:rng.choice([0, 0, 1, 2])]
-    return {"body": body, "chunked": chunked, "stream": stream, "chunks": chunks, "prog": prog, "seg": seg}
+    # the limits on the request HEAD (fields x field size, which also bound one chunk-size line and the trailer block) say nothing
+    # about how much body may follow: every head, chunk-size line and trailer block generated here fits the small ones too
+    limits = rng.choice([(4, 256), (3, 64), (8, 30)]) if rng.random() < 0.2 else None
+    return {"body": body, "chunked": chunked, "stream": stream, "chunks": chunks, "prog": prog, "seg": seg, "limits": limits}
+
+
+def case_spec(case):
+    if case.get("limits"):
+        return lp.make_spec(limit_request_fields=case["limits"][0], limit_request_field_size=case["limits"][1])
+    return lp.make_spec()
 
 
 HUGE_SIZES = [65536, 262144, 524287, 524288, 524289, 700001, 1048577, 2100000]
@@ -263,7 +272,7 @@ def real_gthread_bodies():
 
 def check_case(case):
     """The property on the real code.  Returns a failure description or None."""
-    spec = lp.make_spec()
+    spec = case_spec(case)
     got, nx = real_run(spec, case["chunks"], case["prog"])
     want = file_oracle(case["body"], case["prog"])
     if got != want:
@@ -300,8 +309,9 @@ def run(ctx):
         ctx.hist("body_size", "0" if not case["body"] else "<1024" if len(case["body"]) < 1024 else "1024-2048" if len(case["body"]) <= 2048 else ">2048")
         if f:
             fails.append((case, f))
+        ctx.hist("head_limits", "default" if not case.get("limits") else "fields=%d field_size=%d" % tuple(case["limits"]))
         if len(model_cases) < n_model and len(case["stream"]) < 4000:
-            spec = lp.make_spec()
+            spec = case_spec(case)
             obs, rec = lp.run_impl(spec, case["chunks"], [case["prog"], []])
             model_cases.append((lp.model_expr(spec, case["chunks"], [case["prog"], []], rec), obs,
                                 {"stream": case["stream"], "chunks": [len(c) for c in case["chunks"]], "prog": case["prog"]}))
@@ -311,7 +321,7 @@ def run(ctx):
                                    enc_file_out(file_oracle(case["body"], case["prog"])), (case["body"], case["prog"])))
         if i < 4:
             ctx.sample({"body_len": len(case["body"]), "chunked": case["chunked"], "chunks": [len(c) for c in case["chunks"]][:12],
-                        "prog": repr(case["prog"])})
+                        "prog": repr(case["prog"]), "limits": case.get("limits")})
     # huge bodies, mostly left unread: the drain of Parser.__next__ must still end exactly behind the body
     nh = 0
     for n_body in (HUGE_SIZES if not quick else ctx.rng.sample(HUGE_SIZES[:3], 1) + HUGE_SIZES[3:7]):
@@ -338,7 +348,7 @@ def run(ctx):
                               "seg": case["seg"], "failure": f})
             continue
         ctx.violation(f, {"kind": "c07", "stream": case["stream"].decode("latin-1"), "chunks": [c.decode("latin-1") for c in case["chunks"]],
-                          "body": case["body"].decode("latin-1"), "prog": case["prog"], "failure": f})
+                          "body": case["body"].decode("latin-1"), "prog": case["prog"], "limits": case.get("limits"), "failure": f})
     worker_layer(ctx)
     rf = real_gthread_bodies()
     ctx.count_case(("real-gthread-bodies",), True)
@@ -360,7 +370,7 @@ def run(ctx):
             f = check_case(case)
             if f:
                 ctx.violation(f, {"kind": "c07", "stream": case["stream"].decode("latin-1"), "chunks": [c.decode("latin-1") for c in case["chunks"]],
-                                  "body": case["body"].decode("latin-1"), "prog": case["prog"], "failure": f})
+                                  "body": case["body"].decode("latin-1"), "prog": case["prog"], "limits": case.get("limits"), "failure": f})
                 break
     hdr = lp.HEADER.replace("Model.Parser.", "Model.Parser Spec.IdealBody.")
     bad2 = ctx.correspond("file", hdr, file_cases, shard=100)
@@ -399,7 +409,7 @@ def replay(rep):
             bad += bool(f)
         return 1 if bad else 0
     case = {"body": rep["body"].encode("latin-1"), "chunks": [c.encode("latin-1") for c in rep["chunks"]],
-            "prog": [tuple(c) for c in rep["prog"]]}
+            "prog": [tuple(c) for c in rep["prog"]], "limits": rep.get("limits")}
     f = check_case(case)
     print("failure:", f)
     return 1 if f else 0
